@@ -10,13 +10,28 @@ open Gltf
 /-! ### textures -/
 
 /-- what `PolyformTexture.equal` looks at -/
-def texKey (t : PTexture) : String × Option (List Nat) × Bool × Option (Nat × Nat × Nat × Nat) :=
-  (t.uri, t.xform, t.xform.isSome && t.xformRequired, t.sampler.map (fun s => (s.mag, s.min, s.wrapS, s.wrapT)))
+def texKey (t : PTexture) : String × Option (List Nat) × Bool × Option Sampler :=
+  (t.uri, t.xform, t.xform.isSome && t.xformRequired, t.sampler)
 
 theorem ptexture_equal_iff (a b : PTexture) : a.equal b = true ↔ texKey a = texKey b := by
   unfold PTexture.equal texKey
   cases ha : a.sampler <;> cases hb : b.sampler <;>
-    simp [optEq, Bool.and_eq_true, beq_iff_eq, and_assoc]
+    simp [optEq, Sampler.equal, Bool.and_eq_true, beq_iff_eq, and_assoc]
+
+/-- the OLD texture equality (before 8f08ae3): only the four enums of the samplers.  Kept as a local copy to document
+    the repaired defect; it is not a claim about the current source. -/
+def textureEqualOld (a b : PTexture) : Bool :=
+  a.uri == b.uri
+  && a.xform == b.xform && (a.xform.isSome && a.xformRequired) == (b.xform.isSome && b.xformRequired)
+  && optEq (fun s t => s.mag == t.mag && s.min == t.min && s.wrapS == t.wrapS && s.wrapT == t.wrapT) a.sampler b.sampler
+
+/-- with the old equality two textures that differ in the sampler name were "equal", so materials differing only there
+    were merged and the second sampler was never written (fixed by 8f08ae3; corpus case `c6SamplerNameWitness`) -/
+theorem gltf_dedup_samplername_counterexample :
+    ∃ a b : PTexture, textureEqualOld a b = true ∧ a.sampler ≠ b.sampler ∧ a.equal b = false :=
+  ⟨{ uri := "a.png", sampler := some { mag := 0, min := 0, wrapS := 10497, wrapT := 10497, name := "first" }, xform := none, xformRequired := false },
+   { uri := "a.png", sampler := some { mag := 0, min := 0, wrapS := 10497, wrapT := 10497, name := "second" }, xform := none, xformRequired := false },
+   by decide, by decide, by decide⟩
 
 /-- `texEq th th` as a relation on texture ids: same id, or both resolve to `equal` textures -/
 def TexRel (th : Nat → Option PTexture) (a b : Nat) : Prop :=
